@@ -296,6 +296,10 @@ func runFaults(t *testing.T, rc *RunCtx) {
 		return
 	}
 	ch := rc.Ch
+	if ch.Pick(10, 0) == 9 {
+		runFaultBulk(t, rc)
+		return
+	}
 	plan := NewFaultPlan()
 	nKeys := 1 + ch.Pick(4, 0)
 	nOps := 2 + ch.Pick(5, 0)
@@ -455,6 +459,63 @@ func runFaults(t *testing.T, rc *RunCtx) {
 		desc[i] = o.String()
 	}
 	rc.Sample = map[string]any{"keys": nKeys, "ops": desc, "fault_rate": fmt.Sprintf("1/%d", rateDen), "close_store_at_step": closeAt, "faults_fired": plan.Fired}
+}
+
+// runFaultBulk: one attestation batch over 130-300 keys of the large wallet; the k-th batch write of the request
+// fails (k drawn from 1..3; an implementation that writes a large batch in one go has only the first).  Whatever
+// was signed must have been recorded: a position that carries a signature although the store does not cover its
+// epochs afterwards was signed despite the failed write.
+func runFaultBulk(t *testing.T, rc *RunCtx) {
+	ch := rc.Ch
+	pop := BigPopulation(t)
+	failAt := 1 + ch.Pick(3, 0)
+	seen := 0
+	cfg := SchedCfg{StayBias: 0.8, MaxSteps: 20000}
+	cfg.Fault = func(s *Sched, p *Park) Resume {
+		if p.Kind == KPoint && p.Label == "batchstore" {
+			seen++
+			if seen == failAt {
+				rc.Stats.Inc("fault_store-write-in-bulk-batch", 1)
+				return Resume{Err: ErrInjected, Fault: "store-write"}
+			}
+		}
+		return Resume{}
+	}
+	w := newW1Pop(t, rc, cfg, nil, pop)
+	defer w.close()
+	size := 130 + ch.Pick(171, 0)
+	start := ch.Pick(len(pop.Accts)-size, 0)
+	o := &Op{Kind: "atts", Client: "client1"}
+	for i := 0; i < size; i++ {
+		o.Entries = append(o.Entries, AttEntry(start+i, 1, 2, uint64(100+i)))
+	}
+	w.submit([]*Op{o})
+	out := w.s.Run()
+	rc.Stats.Inc("outcome_"+out, 1)
+	rc.Stats.Inc("bulk_fault_runs", 1)
+	rc.Stats.Seen("cases", fmt.Sprintf("bulkfault/%d/%d/%d", size, failAt, start%7))
+	rc.Sample = map[string]any{"bulk_batch": size, "failing_batch_write": failAt, "batch_writes_seen": seen}
+	if out != "done" || w.res[0] == nil {
+		return
+	}
+	r := w.res[0]
+	Monitor(rc, w.ledger, pop, o, r, w.s.Step, false)
+	var export map[string]Watermark
+	var err error
+	w.s.Direct(func() { export, err = w.inst.Export() })
+	if err != nil {
+		return
+	}
+	for i := range o.Entries {
+		if !r.OK(i) {
+			continue
+		}
+		wm, ok := export[pop.Accts[o.Entries[i].Acct].KName]
+		if !ok || wm.Tgt < int64(o.Entries[i].Tgt) {
+			rc.Violate("C06", "signature-despite-fault", fmt.Sprintf("batch of %d, batch write %d of the request failed: position %d carries a signature although its record was not written (store says %v)", size, failAt, i, wm), w.s.Step)
+			return
+		}
+	}
 }
 
 func init() {
